@@ -118,6 +118,31 @@ class VConst(V):
         return f"VConst({self.py!r})"
 
 
+class VKeyed(V):
+    """Opaque value that belongs to the k-th entry of an abstract keyed collection (k is a z3 Int)."""
+
+    def __init__(self, tag, k):
+        self.tag, self.k = tag, k
+
+    def __repr__(self):
+        return f"VKeyed({self.tag}@{self.k})"
+
+
+class VMap(V):
+    """dict keyed by entry index with values that are an int i (stored as [i, i+1), isrange False) or a pair (a, b)."""
+
+    def __init__(self, has, lo, hi, isr):
+        self.has, self.lo, self.hi, self.isr = has, lo, hi, isr
+
+
+class VMatrix(V):
+    """A 2-d record array of which only column selections matter: y[:, (i,)] and y[:, a:b] evaluate to the half-open column
+    range they select, as the pair (lo, hi)."""
+
+    def __init__(self, tag="y"):
+        self.tag = tag
+
+
 class VRange(V):
     def __init__(self, lo, hi):
         self.lo, self.hi = lo, hi
@@ -336,6 +361,11 @@ class Engine:
             return VFn(name, decl, argk, r.strip())
         if kind == "opaque":
             return VOpaque(name)
+        if kind == "matrix":
+            return VMatrix(name)
+        if kind == "map":
+            return VMap(fresh(name + ".has", z3.ArraySort(INT, BOOL)), fresh(name + ".lo", z3.ArraySort(INT, INT)),
+                        fresh(name + ".hi", z3.ArraySort(INT, INT)), fresh(name + ".isr", z3.ArraySort(INT, BOOL)))
         if kind == "none":
             return VNone()
         if kind.startswith("optional:"):
@@ -531,6 +561,11 @@ class Engine:
 
     def e_IfExp(self, e, st):
         c = self.truth(self.eval(e.test, st))
+        sc = z3.simplify(c)
+        if z3.is_true(sc):
+            return self.eval(e.body, st)
+        if z3.is_false(sc):
+            return self.eval(e.orelse, st)
         a = self.under(st, c, lambda: self.eval(e.body, st))
         b = self.under(st, z3.Not(c), lambda: self.eval(e.orelse, st))
         return self.ite(c, a, b)
@@ -768,6 +803,8 @@ class Engine:
             return VConst(("method", base, e.attr))
         if isinstance(base, VConst):
             return VConst(("attr", base.py, e.attr))
+        if isinstance(base, VKeyed):
+            return VKeyed(f"{base.tag}.{e.attr}", base.k)
         if isinstance(base, VOpaque):
             return VOpaque(f"{base.tag}.{e.attr}")
         if isinstance(base, (VNum, VSeq, VStr, VTuple)):
@@ -790,6 +827,22 @@ class Engine:
         if isinstance(base, VOpaque):
             return VOpaque(f"{base.tag}[]")
         sl = e.slice
+        if isinstance(base, VMatrix):
+            if isinstance(sl, ast.Tuple) and len(sl.elts) == 2 and isinstance(sl.elts[0], ast.Slice) and sl.elts[0].lower is None \
+                    and sl.elts[0].upper is None:
+                col = sl.elts[1]
+                if isinstance(col, ast.Slice):
+                    lo = self.num(self.eval(col.lower, st)) if col.lower is not None else z3.IntVal(0)
+                    if col.upper is None or col.step is not None:
+                        raise Unsupported("open column slice")
+                    return VTuple([VNum(lo), VNum(self.num(self.eval(col.upper, st)))])
+                cv = self.eval(col, st)
+                if isinstance(cv, VTuple) and len(cv.items) == 1:        # fancy index with one column
+                    i = self.num(cv.items[0])
+                    return VTuple([VNum(i), VNum(i + 1)])
+                if isinstance(cv, VNum) and cv.is_int:
+                    return VTuple([VNum(cv.z), VNum(cv.z + 1)])
+            raise Unsupported(f"matrix subscript {ast.unparse(e)}")
         if isinstance(sl, ast.Slice):
             return self.slice(base, sl, st)
         if isinstance(sl, ast.Tuple):
@@ -970,6 +1023,14 @@ class Engine:
                         self.qmeta[q.get_id()] = (q, k, lo, hi, extra, body)
                     return VNum(q)
                 return VNum(z3.Exists([k], z3.And(rng, *extra, body)))
+            if n in ("has", "start", "stop", "isrange") and len(e.args) == 2:
+                m = self.eval(e.args[0], st)
+                k = self.num(self.eval(e.args[1], st))
+                if isinstance(m, VMap):
+                    arr = {"has": m.has, "start": m.lo, "stop": m.hi, "isrange": m.isr}[n]
+                    return VNum(z3.Select(arr, k))
+            if n == "vsize" and len(e.args) == 1:
+                return VNum(z3.Function("vsize", INT, INT)(self.num(self.eval(e.args[0], st))))
             if n == "implies":
                 a = self.truth(self.eval(e.args[0], st))
                 s2 = st.fork(); s2._old = getattr(st, "_old", None)
@@ -1033,6 +1094,11 @@ class Engine:
             if isinstance(py, tuple) and py[0] == "method":
                 return self.call_method(py[1], py[2], args, kwargs, st, e)
         if isinstance(fv, VOpaque):
+            meth = fv.tag.rsplit(".", 1)[-1]
+            abst = self.c.get("abstractions", {})
+            if f"*.{meth}" in abst:
+                self.assumed.append(f"*.{meth}")
+                return abst[f"*.{meth}"](self, st, [fv] + args, kwargs, e)
             return self.opaque_call(f"<opaque {fv.tag}>", st, e)
         raise Unsupported(f"call {ast.unparse(e)}")
 
@@ -1112,6 +1178,11 @@ class Engine:
                     acc, x = to_real(acc), to_real(x)
                 acc = z3.If(x > acc, x, acc) if name == "max" else z3.If(x < acc, x, acc)
             return VNum(acc)
+        if name == "sum" and len(args) == 1 and isinstance(args[0], VKeyed):
+            # sum(lhs.shape) of the k-th entry: an unknown non-negative integer that depends only on the entry
+            f = z3.Function("vsize", INT, INT)
+            st.assume(f(args[0].k) >= 0)
+            return VNum(f(args[0].k))
         if name == "isinstance":
             a, cls = args
             if isinstance(a, VObj) and isinstance(cls, VConst):
@@ -1178,6 +1249,11 @@ class Engine:
         if isinstance(recv, VSeq):
             # mutation of a list: needs the receiver expression to rebind
             tgt = e.func.value
+            if meth == "append" and isinstance(args[0], (VKeyed, VOpaque)):
+                # a list of unmodelled values: only its length is tracked
+                new = VSeq(recv.arr, recv.ln + 1, recv.ek)
+                self.assign_target(tgt, new, st)
+                return VNone()
             if meth == "append":
                 new = VSeq(z3.Store(recv.arr, recv.ln, self.coerce(args[0], recv.ek)), recv.ln + 1, recv.ek)
                 if getattr(args[0], "borrowed", False) or getattr(recv, "borrowed", False):
@@ -1290,6 +1366,18 @@ class Engine:
         if isinstance(t, ast.Subscript):
             base = self.eval(t.value, st)
             sl = t.slice
+            if isinstance(base, VMap):
+                k = self.num(self.eval(sl, st))
+                if isinstance(val, VTuple) and len(val.items) == 2:
+                    lo_, hi_, r_ = self.num(val.items[0]), self.num(val.items[1]), z3.BoolVal(True)
+                elif isinstance(val, VNum) and val.is_int:
+                    lo_, hi_, r_ = val.z, val.z + 1, z3.BoolVal(False)
+                else:
+                    raise Unsupported("map value")
+                new = VMap(z3.Store(base.has, k, z3.BoolVal(True)), z3.Store(base.lo, k, lo_), z3.Store(base.hi, k, hi_),
+                           z3.Store(base.isr, k, r_))
+                self.assign_target(t.value, new, st)
+                return
             if isinstance(base, VSeq):
                 if isinstance(sl, ast.Tuple) and len(sl.elts) == 2 and isinstance(sl.elts[1], ast.Slice) \
                         and sl.elts[1].lower is None and sl.elts[1].upper is None:
@@ -1490,6 +1578,11 @@ class Engine:
             nv = VSeq(fresh(name, v.arr.sort()), ln, v.ek)
             nv.nd = getattr(v, "nd", False)
             return nv
+        if isinstance(v, VMap):
+            return VMap(fresh(name + ".has", v.has.sort()), fresh(name + ".lo", v.lo.sort()), fresh(name + ".hi", v.hi.sort()),
+                        fresh(name + ".isr", v.isr.sort()))
+        if isinstance(v, VKeyed):
+            return v
         if isinstance(v, VTuple):
             return VTuple([self.havoc_value(x, f"{name}.{i}", st) for i, x in enumerate(v.items)])
         if isinstance(v, VObj):
@@ -1578,6 +1671,9 @@ class Engine:
                 raise Unsupported("enumerate over opaque")
             else:
                 raise Unsupported("enumerate iterable")
+        elif isinstance(it, VIter) and it.kind == "keyed-items":
+            n = self.num(it.parts[0])
+            bind = lambda k, s_: self.assign_target(s.target, VTuple([VNum(k), VKeyed("value", k)]), s_)
         elif isinstance(it, VIter) and it.kind == "zip":
             seqs = it.parts
             if not all(isinstance(q, VSeq) for q in seqs):
